@@ -23,7 +23,7 @@ SignerOf(m) ==
     [] m.t = "Send" -> m.from
     [] m.t = "Delegate" -> m.del
     [] m.t = "Exec" -> m.grantee
-    [] m.t \in {"Grant", "Revoke"} -> m.granter
+    [] m.t \in {"Grant", "Revoke", "FGrant", "FRevoke"} -> m.granter
     [] m.t = "UpdParams" -> m.authority
     [] m.t = "GovProp" -> m.proposer
     [] m.t = "Vote" -> m.voter
@@ -54,6 +54,7 @@ ApplyParams(st, mod, p) ==
 GrantableTypes == {"Raise", "Decide", "Whitelist", "WReg", "WRec", "WBuy", "BReg", "BRec", "BBuy",
                    "SCreate", "SClaim", "STopUp", "SRate", "SCancel", "Send"}
 GrantKey(granter, grantee, mt) == granter \o "/" \o grantee \o "/" \o mt
+FGrantKey(granter, grantee) == granter \o "/" \o grantee
 MayExec(st, grantee, m) == SignerOf(m) = grantee \/ Has(st.grants, GrantKey(SignerOf(m), grantee, m.t))
 
 ------------------------------------------------------------------------------
@@ -77,6 +78,7 @@ BasicOk(st, m) ==
     [] m.t = "Exec" -> Len(m.msgs) > 0 /\ \A i \in DOMAIN m.msgs : BasicOk(st, m.msgs[i])
     [] m.t = "Grant" -> m.granter # m.grantee /\ m.mt \in GrantableTypes
     [] m.t = "Revoke" -> m.granter # m.grantee /\ m.mt # ""
+    [] m.t \in {"FGrant", "FRevoke"} -> m.granter # m.grantee
     [] m.t = "UpdParams" -> ParamsValid(st, m.mod, m.p)
     [] m.t = "GovProp" -> \A i \in DOMAIN m.msgs : BasicOk(st, m.msgs[i])
     [] m.t = "Vote" -> TRUE
@@ -118,6 +120,13 @@ RunMsg(st, m) ==
     [] m.t = "Revoke" ->
          IF ~Has(st.grants, GrantKey(m.granter, m.grantee, m.mt)) THEN Fail(st)
          ELSE Ok([st EXCEPT !.grants = Del(@, GrantKey(m.granter, m.grantee, m.mt))])
+    \* x/feegrant: an unlimited, non-expiring basic allowance granter -> grantee
+    [] m.t = "FGrant" ->
+         IF Has(st.fgrants, FGrantKey(m.granter, m.grantee)) THEN Fail(st)
+         ELSE Ok([st EXCEPT !.fgrants = Upd(@, FGrantKey(m.granter, m.grantee), 1)])
+    [] m.t = "FRevoke" ->
+         IF ~Has(st.fgrants, FGrantKey(m.granter, m.grantee)) THEN Fail(st)
+         ELSE Ok([st EXCEPT !.fgrants = Del(@, FGrantKey(m.granter, m.grantee))])
     [] m.t = "UpdParams" ->
          IF m.authority # "gov" THEN Fail(st) ELSE ApplyParams(st, m.mod, m.p)
     [] m.t = "GovProp" ->
@@ -182,7 +191,10 @@ Ante(st, tx) ==
   ELSE LET u == IF IsAnyRegistryTx(tx.msgs) /\ st.ent.locked[tx.payer] > 0
                 THEN UnlockForFees(st, tx.payer, tx.fee) ELSE Ok(st)
        IN IF ~u.ok THEN Fail(st)
-          ELSE LET d == DeductFee(u.st, tx.payer, tx.fee) IN
+          \* the fee is taken from the fee granter when the transaction names one (it must have granted the payer an
+          \* allowance); the module fee checks and the eFUND unlock above still concern the fee PAYER
+          ELSE IF tx.granter # "" /\ tx.granter # tx.payer /\ ~Has(u.st.fgrants, FGrantKey(tx.granter, tx.payer)) THEN Fail(st)
+          ELSE LET d == DeductFee(u.st, IF tx.granter # "" THEN tx.granter ELSE tx.payer, tx.fee) IN
                IF ~d.ok \/ ~SigsOk(tx) THEN Fail(st) ELSE Ok(d.st)
 
 ------------------------------------------------------------------------------
@@ -194,6 +206,7 @@ TxOf(ev) ==
       fee |-> Get(ev, "fee", <<>>),
       signers |-> Get(ev, "signers", <<>>),
       payer |-> IF Get(ev, "payer", "") # "" THEN ev.payer ELSE req[1],
+      granter |-> Get(ev, "granter", ""),
       badSig |-> Get(ev, "badSig", FALSE), badSeq |-> Get(ev, "badSeq", FALSE)]
 
 \* entities that messages of a rolled-back transaction had created before a later message failed: ids and stream
@@ -258,6 +271,7 @@ Step(st, ev) ==
   CASE ev.a = "BeginBlock" -> BeginBlock(st, ev)
     [] ev.a = "DeliverTx" -> DeliverTx(st, ev)
     [] ev.a = "CheckTx" -> Ok(st)      \* admission never changes committed state (judged by AdmitIdeal)
+    [] ev.a = "Recheck" -> Ok(st)      \* re-admission of the pending transactions after a block (judged by AdmitIdeal)
     [] ev.a = "EndBlock" -> EndBlock(st, ev)
     [] ev.a = "Commit" -> Commit(st, ev)
     [] ev.a = "ListQueries" -> Ok(st)  \* queries never modify state
